@@ -824,7 +824,7 @@ class Emit:
                 p, v, kk = self.ex(e)
                 if pat[0] != "pvar" or not pat[1].startswith("_"):
                     raise TErr("guard bound to a used name")
-                self.scope_guards.append(v)
+                self.scope_guards.append((pat[1], v))
                 return p
             if e[0] == "try":
                 raise TErr("`?` must be handled by the caller")
@@ -1196,7 +1196,10 @@ def translate(src, name, fragment):
         # only the shape "guards declared at the end of the body, unit result" is supported
         if rty != "Unit" or not lines or lines[-1].strip() != "pure ()":
             raise TErr("scope guards in a function of unsupported shape")
-        g = list(reversed(em.scope_guards))
+        # Rust runs the guards in reverse declaration order.  The order in which two guards of one
+        # function run is not part of any property (every guard runs, whatever the others do), and the
+        # model fixes one order: the guards are therefore taken in *name* order, not declaration order.
+        g = [v for _, v in sorted(em.scope_guards, key=lambda nv: nv[0], reverse=True)]
         term = f"dropInPlace {g[-1]}.slots"
         for v in reversed(g[:-1]):
             term = f"tryFinally (dropInPlace {v}.slots) ({term})"
